@@ -141,13 +141,18 @@ class Net:
         self.fibre = [isinstance(n, Fiber) for n in self.nodes]
         self.exact = True
         self.adj = []
+        self.weight_mismatch = []
         for n in self.nodes:
             row = []
+            # the specification's weight: the length of the fibre span an edge leaves, 0.01 m for any other hop
+            # (independent of the 'weight' attribute gnpy put on the edge, which is what its search really uses)
+            w = n.params.length if isinstance(n, Fiber) else 0.01
+            wi = round(100 * w)
+            if abs(100 * w - wi) > 1e-6:
+                self.exact = False
             for m in net.successors(n):
-                w = net[n][m]['weight']
-                wi = round(100 * w)
-                if abs(100 * w - wi) > 1e-6:
-                    self.exact = False
+                if abs(net[n][m].get('weight', -1) - w) > 1e-9 * max(1.0, w):
+                    self.weight_mismatch.append((n.uid, m.uid, net[n][m].get('weight'), w))
                 row.append((self.id[m.uid], wi))
             self.adj.append(row)
         self.oms_els = [[self.id[u] for u in o.el_id_list] for o in self.oms]
@@ -575,6 +580,10 @@ def run_big(ctx, rng, nnets, fixed=None):
         if not N.exact:
             ctx.count('skipped_inexact_weights')
             continue
+        if N.weight_mismatch:
+            u, v, got, want = N.weight_mismatch[0]
+            ctx.violation('edge_weight_not_fibre_length', f'edge {u} -> {v} weighs {got}, fibre length rule gives {want}',
+                          {'big': True, 'topo': topo, 'requests': []})
         cases, keep = [], []
         for k in range(6 if fixed is None else len(fixed[i]['requests'])):
             if fixed is None:
@@ -656,6 +665,10 @@ def run(ctx):
         if not N.exact:
             ctx.count('skipped_inexact_weights')
             continue
+        if N.weight_mismatch:
+            u, v, got, want = N.weight_mismatch[0]
+            ctx.violation('edge_weight_not_fibre_length', f'edge {u} -> {v} weighs {got}, fibre length rule gives {want}',
+                          {'topo': c['topo'], 'requests': []})
         reqs = c['requests'] if c['requests'] is not None else [gen_request(rng, N, k) for k in range(8)]
         pairs = []
         for rq in reqs:
@@ -679,8 +692,10 @@ def run(ctx):
     elif nets[0].get('big'):
         run_big(ctx, rng, 1, fixed=nets)
     ctx.assumptions += [
-        'graph, element kinds and OMS lists handed to Coq are read from the designed networkx graph / build_oms_list '
-        'of gnpy itself (successor order, edge weights x100 rounded to integer cm; exactness checked per network)',
+        'links, element kinds and OMS lists handed to Coq are read from the designed networkx graph / build_oms_list of '
+        'gnpy itself (successor order); edge weights are NOT: they are recomputed as fibre length of the span the edge '
+        'leaves / 0.01 m otherwise, x100 = integer cm (exactness checked per network) and compared with the weight '
+        'attribute gnpy set (oracle key edge_weight_not_fibre_length)',
         'optimality on 12-40 site meshes is judged by the dual-potential certificate (potentials computed by an '
         'untrusted Dijkstra in the harness, checked in Coq); include lists are exercised on the 2-8 site meshes only',
     ]
